@@ -24,7 +24,7 @@ RULE = (
     "resolve_syntatic_sugar on the AST, through Select(string) and through Select(callable); datasets incl. empty "
     "collections. (b) generated @dataclass / NamedTuple classes with 1-4 fields and every split of the arguments into "
     "positional + keyword (any keyword order), exhaustively; (c) malformed uses: tuple targets, async for, unknown keyword, "
-    "surplus arguments. Non-trivial = (a) >=1 if clause or a nested comprehension or a name collision, with a non-empty "
+    "surplus arguments, starred arguments. Non-trivial = (a) >=1 if clause or a nested comprehension or a name collision, with a non-empty "
     "reference value; (b) >=2 fields with a mixed positional/keyword binding. Distinct by case text."
 )
 ASSUMPTIONS = [
@@ -94,7 +94,7 @@ def _dc_case(draw):
     fields = FIELDS[:n]
     npos = draw(st.integers(0, n))
     kw = draw(st.permutations(fields[npos:]))
-    bad = draw(st.sampled_from([None, None, None, None, "unknown", "surplus"]))
+    bad = draw(st.sampled_from([None, None, None, None, None, None, "unknown", "surplus", "starred"]))
     style = draw(st.sampled_from(["dataclass", "namedtuple"]))
     variant = draw(st.sampled_from([None, None, "init_false", "kw_only_first", "defaults", "defaults"])) if style == "dataclass" else None
     via = draw(st.sampled_from([None, None, "helper-twice", "called-lambda-twice"]))
@@ -262,6 +262,9 @@ def _dc_module(case):
     pos = [ARGS[f] for f in fields[: case["pos"]]]
     if case["bad"] == "surplus":
         pos.append("99")
+    if case["bad"] == "starred":
+        # the positional arguments handed over as one starred expression: nobody can say which fields they bind
+        pos = ["*(" + ", ".join(pos + ["e.met"]) + ",)"] if pos else ["*(e.met,)"]
     kws = [f"{f}={ARGS[f]}" for f in case["kw"]]
     if case["bad"] == "unknown":
         # the unknown keyword takes the place of one field, so that the argument count alone does not give it away
